@@ -8,8 +8,8 @@ from harness.common import enc_str
 
 ID = "C07"
 BACKENDS = ("py", "rs")
-GEN_MODULES = ("Tables", "Helpers", "Parser", "IsoPy:datetime")
-MIN_THEOREMS = 28
+GEN_MODULES = ("Tables", "Helpers", "RsHelpers", "Parser", "IsoPy:datetime", "IsoRs:datetime", "IsoRs:glue")
+MIN_THEOREMS = 37
 RULE = ("ops: ('p', opts, string, expected, form). Strings are RENDERED from a value (date / time / fraction digits / offset) "
         "by this module with the standard library only; expected = that value. quick: every date of 10 pattern years "
         "(leap, long, century, 0001, 9999) in the 6 date forms (calendar/ordinal/week x basic/extended) + YYYY-MM, YYYY, "
